@@ -5,7 +5,7 @@ use crate::h::Cfg;
 use std::collections::BTreeSet;
 
 fn run(exe: &str, scenario: &str, cfg: &str, bound: usize, elide: bool) -> ExploreResult {
-    let spec = WorkerSpec { scenario: scenario.to_string(), cfg: Cfg::parse(cfg), bound, elide, try_sites: vec![], seed: 7 };
+    let spec = WorkerSpec { scenario: scenario.to_string(), cfg: Cfg::parse(cfg), bound, elide, try_sites: vec![], seed: 7, fresh: false };
     explore(exe, &spec, &Limits { workers: 4, deadline: None, stop_on_violation: false })
 }
 
@@ -45,7 +45,7 @@ pub fn selftest_main(exe: &str, thorough: bool) -> i32 {
     std::env::set_var("VCHECK_QUIET_WORKERS", "1");
     let r = run(exe, "st_segv", "pool=0", 0, true);
     std::env::remove_var("VCHECK_QUIET_WORKERS");
-    let spec = WorkerSpec { scenario: "st_segv".into(), cfg: Cfg::parse("pool=0"), bound: 0, elide: true, try_sites: vec![], seed: 7 };
+    let spec = WorkerSpec { scenario: "st_segv".into(), cfg: Cfg::parse("pool=0"), bound: 0, elide: true, try_sites: vec![], seed: 7, fresh: false };
     let reproduced = r.crashed.iter().any(|c| c.prefix.as_ref().map(|p| replay_dies(exe, &spec, p).is_some()).unwrap_or(false));
     check("subject crash is attributed to a schedule and reproduced", !r.crashed.is_empty() && reproduced, format!("crashes={}", r.crashed.len()));
 
